@@ -128,7 +128,131 @@ func runC16(c *vf.Ctx) {
 	c16Sequential(c)
 	c16Concurrent(c)
 	c16HostNoTopic(c)
+	c16Blocked(c)
 	c16Pubsub(c)
+}
+
+// calls that are blocked inside the receiver when Close runs (Direct on a full buffer with no consumer, Next on an
+// empty one), with contexts that are never cancelled: Close must wake every one of them with the closed error.
+// Decided by the hang rule, not by a deadline.
+func c16Blocked(c *vf.Ctx) {
+	const sub = "close-wakes-blocked-calls"
+	if !c.Active(sub) {
+		return
+	}
+	n := c.N(60, 1500)
+	pid := Keys()["ed25519"][0].ID
+	for i := 0; i < n; i++ {
+		if !c.Mine(sub, i) || c16TooManyHangs() {
+			continue
+		}
+		r := c.Rand(sub, i)
+		kind := []string{"Direct", "Next"}[r.Intn(2)]
+		nblocked := 1 + r.Intn(3)
+		nclose := 1 + r.Intn(2)
+		withHost := r.Intn(4) == 0
+		desc := fmt.Sprintf("%d x %s blocked, %d closers, host-without-topic=%v", nblocked, kind, nclose, withHost)
+		c.Cur(sub, i, desc)
+		wit := func() any { return map[string]any{"scenario": desc} }
+		var passed atomic.Int64
+		allow := func(peer.ID) bool { passed.Add(1); return true }
+		var rc *announce.Receiver
+		var err error
+		var h host.Host
+		if withHost {
+			if h, err = newHost(); err != nil {
+				c.Inconclusive(sub, i, "host-create", err.Error(), nil)
+				continue
+			}
+			rc, err = announce.NewReceiver(h, "", announce.WithAllowPeer(allow))
+		} else {
+			rc, err = announce.NewReceiver(nil, "", announce.WithAllowPeer(allow))
+		}
+		if err != nil {
+			c.Fail(sub, i, "receiver-create-error", err.Error(), wit())
+			continue
+		}
+		if kind == "Direct" {
+			// fills the one-slot buffer; nobody reads
+			if err := rc.Direct(context.Background(), c09Cid(5000), peer.AddrInfo{ID: pid, Addrs: []multiaddr.Multiaddr{c09Marker(1)}}); err != nil {
+				c.Fail(sub, i, "direct-unexpected-error", err.Error(), wit())
+				continue
+			}
+		}
+		errs := make([]error, nblocked)
+		verdicts := make([]vf.Verdict, nblocked)
+		dumps := make([]string, nblocked)
+		var wg sync.WaitGroup
+		for k := 0; k < nblocked; k++ {
+			wg.Add(1)
+			go func(k int) {
+				defer wg.Done()
+				// (the watchdog period is far longer than the moment these calls legitimately wait for Close)
+				verdicts[k], dumps[k] = vf.Watch(c16Watchdog, func() {
+					if kind == "Direct" {
+						errs[k] = rc.Direct(context.Background(), c09Cid(5001+k), peer.AddrInfo{ID: pid, Addrs: []multiaddr.Multiaddr{c09Marker(2 + k)}})
+					} else {
+						_, errs[k] = rc.Next(context.Background())
+					}
+				})
+			}(k)
+		}
+		// let the calls get into the receiver (whether or not they are already blocked decides nothing)
+		want := int64(nblocked + 1)
+		for w := 0; w < 400 && kind == "Direct" && passed.Load() < want; w++ {
+			time.Sleep(50 * time.Microsecond)
+		}
+		time.Sleep(time.Duration(200+r.Intn(1500)) * time.Microsecond)
+		var cwg sync.WaitGroup
+		okClose := true
+		var mu sync.Mutex
+		for k := 0; k < nclose; k++ {
+			cwg.Add(1)
+			go func(k int) {
+				defer cwg.Done()
+				if !c16CheckResult(c, sub, i, []string{desc, "Close"}, k, c16Do(rc, "Close", k), false, wit) {
+					mu.Lock()
+					okClose = false
+					mu.Unlock()
+				}
+			}(k)
+		}
+		cwg.Wait()
+		if !okClose {
+			c.Eval(1)
+			continue // (a hung Close is reported; the blocked calls stay behind)
+		}
+		{
+			wg.Wait()
+			v, dump := vf.Returned, ""
+			for k := range verdicts {
+				if verdicts[k] == vf.Hung || (verdicts[k] == vf.Inconclusive && v == vf.Returned) {
+					v, dump = verdicts[k], dumps[k]
+				}
+			}
+			switch v {
+			case vf.Hung:
+				c16Hangs.Add(1)
+				c.Fail(sub, i, "hang:blocked-"+kind+"-not-woken-by-Close:"+vf.LibFrame(dump), fmt.Sprintf("%s; Close returned, the blocked call did not\n%s", desc, dump), wit())
+			case vf.Inconclusive:
+				c16Hangs.Add(1)
+				c.Inconclusive(sub, i, "blocked-call-did-not-return:"+kind, dump, wit())
+			default:
+				for k, e := range errs {
+					if !errors.Is(e, announce.ErrClosed) {
+						c.Fail(sub, i, "blocked-"+kind+"-returned-without-closed-error", fmt.Sprintf("call %d: %v", k, e), wit())
+						break
+					}
+				}
+				c.Inc("blocked_calls_woken_by_close")
+			}
+		}
+		if h != nil {
+			h.Close()
+		}
+		c.Eval(1)
+		c.Distinct(sub, desc)
+	}
 }
 
 // a receiver created with a libp2p host but without a pubsub topic (announcements arrive
